@@ -16,18 +16,15 @@ pub fn verif_btreeset_to_vec(s: &BTreeSet<u32>) -> (r: Vec<u32>)
 pub fn verif_clone_from_fb(dst: &mut FacebookSources, src: &FacebookSources)
     ensures *final(dst) == *src
 { unimplemented!() /* dst.clone_from(src): the derives of the JSON structs are dropped here (R-derive) */ }
-//# assumes: (the one closure of as_raw_sourcemap that captures a mutable local, outside the Verus subset) `self.source_contents().map(|c| if let Some(c) = c { have_contents = true; Some(c.to_string()) } else { None }).collect()` yields one entry per source -- the embedded text of source i, None without one -- and sets have_contents exactly when some entry is Some (it stays as it was otherwise)
-#[verifier::external_body]
-pub fn verif_collect_contents(sm: &SourceMap, have_contents: &mut bool) -> (r: Vec<Option<String>>)
-    ensures
-        r@.len() == sm.sources@.len(),
-        forall|i: int| 0 <= i < r@.len() ==> match old_text_of(sm, i) { Some(t) => (#[trigger] r@[i] matches Some(s) && s@ == t), None => r@[i] is None },
-        *final(have_contents) == (*old(have_contents) || exists|i: int| 0 <= i < r@.len() && #[trigger] r@[i] is Some),
-{ unimplemented!() }
 /// the embedded text of source i of a map, if any
 pub open spec fn old_text_of(sm: &SourceMap, i: int) -> Option<Seq<char>> {
     if 0 <= i < sm.sources_content@.len() { match sm.sources_content@[i] { Some(v) => Some(sv_text(&v)), None => None } } else { None }
 }
+//# assumes: every sequence of chars is the text of some str (Rust's str is any sequence of Unicode scalar values)
+#[verifier::external_body]
+pub proof fn axiom_chars_have_a_str(c: Seq<char>)
+    ensures exists|s: &'static str| #[trigger] s@ == c
+{}
 //# assumes: a str is its characters: two strs with the same characters are the same value
 #[verifier::external_body]
 pub broadcast proof fn axiom_str_ext(a: &str, b: &str)
